@@ -544,10 +544,113 @@ def r05_5(ctx, counts) -> RuleResult:
     return res
 
 
+def r05_6(ctx, counts) -> RuleResult:
+    """select / iter_select build the same dynamic context"""
+    model = ctx.model
+    res = RuleResult(
+        'R05.6', 'SELECTOR-SIBLINGS',
+        'xpath_selectors.select and iter_select (module functions) and Selector.select / '
+        'Selector.iter_select are sibling entry points that must differ only in how the results '
+        'are consumed: within each pair the parser construction and the XPathContext(...) '
+        'construction have identical argument lists (same positional order, same keywords), and '
+        'the positional arguments that are plain names coinciding with parameter names of '
+        'XPathContext.__init__ sit at the index of the same-named parameter.')
+    mod = model.module('elementpath.xpath_selectors')
+    init = model.find_class('XPathContext').methods.get('__init__')
+    if init is None:
+        raise AnalysisError('XPathContext.__init__ vanished')
+    ctx_params = [p for p in init.params() if p != 'self']
+
+    def ctx_calls(f: FuncInfo) -> list[ast.Call]:
+        return [n for n in walk_local(f.node) if isinstance(n, ast.Call)
+                and dotted(n.func).split('.')[-1] in ('XPathContext', 'XPathSchemaContext')]
+
+    def sig(c: ast.Call) -> tuple:
+        return (tuple(stmt_text(a) for a in c.args),
+                tuple(sorted((k.arg or '**', stmt_text(k.value)) for k in c.keywords)))
+
+    pairs = []
+    f1, f2 = mod.toplevel_function('select'), mod.toplevel_function('iter_select')
+    if f1 is None or f2 is None:
+        raise AnalysisError('xpath_selectors.select / iter_select vanished')
+    pairs.append((f1, f2))
+    sel = model.find_class('Selector')
+    m1, m2 = sel.methods.get('select'), sel.methods.get('iter_select')
+    if m1 is None or m2 is None:
+        raise AnalysisError('Selector.select / iter_select vanished')
+    pairs.append((m1, m2))
+    n = 0
+    for a, b in pairs:
+        ca, cb = ctx_calls(a), ctx_calls(b)
+        if len(ca) != 1 or len(cb) != 1:
+            raise AnalysisError(f'{a.key}/{b.key}: one XPathContext construction each expected')
+        n += 1
+        res.instances.append(f'{a.key} vs {b.key}: {stmt_text(ca[0])[:60]} | {stmt_text(cb[0])[:60]}')
+        if sig(ca[0]) == sig(cb[0]):
+            res.ok()
+        else:
+            res.fail(finding('R05.6', b, cb[0], 'context arguments differ from sibling',
+                             f'{b.name} builds `{stmt_text(cb[0])[:90]}` while its sibling '
+                             f'{a.name} builds `{stmt_text(ca[0])[:90]}`: select and iter_select '
+                             f'evaluate on different dynamic contexts'))
+        for f_, c in ((a, ca[0]), (b, cb[0])):
+            for i, arg in enumerate(c.args):
+                if isinstance(arg, ast.Name) and arg.id in ctx_params and \
+                        i < len(ctx_params) and ctx_params[i] != arg.id:
+                    res.fail(finding('R05.6', f_, c, f'{arg.id} passed as {ctx_params[i]}',
+                                     f'{f_.name}: the argument `{arg.id}` is passed in the '
+                                     f'position of the XPathContext parameter `{ctx_params[i]}`'))
+                elif isinstance(arg, ast.Name) and arg.id in ctx_params:
+                    res.ok()
+    counts['selector_pairs'] = n
+    return res
+
+
+def r05_7(ctx, counts) -> RuleResult:
+    """memoisation keyed by Python equality is only sound for strings"""
+    model = ctx.model
+    res = RuleResult(
+        'R05.7', 'CACHE-KEY-DOMAIN',
+        'A function memoised with functools.cache / lru_cache returns what an earlier call with '
+        'an *equal* argument returned. Python equality conflates values that XPath '
+        'distinguishes (0.0 == -0.0, 1 == 1.0 == True, Decimal("1.0") == Decimal("1.00")), so a '
+        'memoised function is history-independent only if every parameter is annotated str (or '
+        'Optional[str]); any other parameter type makes results depend on the order of earlier '
+        'evaluations. (cached_property on immutable objects is not concerned.)')
+    n = 0
+    for f in sorted(model.all_functions(), key=lambda q: q.key):
+        decs = [stmt_text(d) for d in f.node.decorator_list]
+        if not any(d.split('(')[0].split('.')[-1] in ('cache', 'lru_cache') for d in decs):
+            continue
+        n += 1
+        a = f.node.args
+        bad = []
+        for p in a.posonlyargs + a.args + a.kwonlyargs:
+            if p.arg in ('self', 'cls'):
+                continue
+            ann = stmt_text(p.annotation) if p.annotation is not None else ''
+            ok = ann in ('str', 'Optional[str]', 'str | None', 'None | str')
+            if not ok:
+                bad.append(f'{p.arg}: {ann or "unannotated"}')
+        res.instances.append(f'{f.key}: memoised, parameters '
+                             f'{"all str" if not bad else "NOT all str: " + ", ".join(bad)}')
+        if bad:
+            res.fail(finding('R05.7', f, f.node, 'cache key ' + bad[0],
+                             f'{f.name} is memoised but takes {", ".join(bad)}: equal-but-'
+                             f'distinct values (0.0 / -0.0, 1 / 1.0 / true) share one cache slot, '
+                             f'so the result depends on which was seen first in the process'))
+        else:
+            res.ok()
+    counts['memoised_functions'] = n
+    if n < 2:
+        raise AnalysisError(f'only {n} memoised functions located')
+    return res
+
+
 def run(ctx) -> dict:
     counts: dict[str, int] = {}
     results = [r05_1(ctx, counts), r05_2(ctx, counts), r05_3(ctx, counts), r05_4(ctx, counts),
-               r05_5(ctx, counts)]
+               r05_5(ctx, counts), r05_6(ctx, counts), r05_7(ctx, counts)]
     return {
         'results': results, 'counts': counts,
         'explanation':
@@ -557,7 +660,8 @@ def run(ctx) -> dict:
             'The dynamic phase is the set of functions reachable in the resolved call graph '
             'from the evaluate/select/cast/__call__ slots of the token classes.',
         'not_decided':
-            'That repeated evaluation returns equal items, select ≡ iter_select, and '
+            'That repeated evaluation returns equal items in general (decided: the two selector '
+            'entry points build the same context; memoised helpers are keyed by strings only), and '
             'immutability of namespace maps and schema objects beyond the copies made in the '
             'constructors.',
         'assumptions': ['phase map from the resolved call graph',
